@@ -1,4 +1,5 @@
 import EmbitModel.Model.Sighash
+import EmbitModel.Model.ReadVout
 /-
   Model of embit `psbt.py`: key-value layer, DerivationPath, InputScope / OutputScope / PSBT
   (`read_value`, `write_to`, `read_from`, `parse_unknowns`, `vin` / `vout` / `tx` reconstruction, `verify`,
@@ -106,14 +107,12 @@ structure InScope where
   unknown : List KV := []
 deriving Repr, Inhabited
 
-/-- `Transaction.read_vout` result on a complete value: (output, double-SHA of the stripped encoding) -/
+/-- `Transaction.read_vout` on a value that must be consumed completely: (output, double-SHA of the stripped
+    encoding) -/
 def readVoutAll (sha : Bytes → Bytes) (v : Bytes) (idx : Nat) : Option (TxOut × Bytes) :=
-  match Tx.parse v with
-  | none => none
-  | some t =>
-    match t.vout[idx]? with
-    | none => none
-    | some o => some (o, Tx.hash sha t)
+  match Tx.readVout sha idx v with
+  | some (x, []) => some x
+  | _ => none
 
 /-- `InputScope.read_value` for a non-separator key `k` with raw value `v` -/
 def InScope.addPair (ko : KeyOps) (sha : Bytes → Bytes) (compress : Nat) (s : InScope) (k v : Bytes) :
@@ -268,23 +267,29 @@ def InScope.utxo (s : InScope) : Option TxOut :=
       | some t, some n => t.vout[n]?
       | _, _ => none
 
+/-- the txid the supplied previous-transaction data hashes to (`_txhash` reversed, or `non_witness_utxo.txid()`) -/
+def InScope.expectedTxid (sha : Bytes → Bytes) (s : InScope) : Option Bytes :=
+  match s.txhash with
+  | some h => some h.reverse
+  | none => s.nonWitnessUtxo.map (Tx.txid sha)
+
+/-- the previous output according to the hashed previous transaction (`_utxo`, or `non_witness_utxo.vout[vout]`) -/
+def InScope.prevOut (s : InScope) : Option TxOut :=
+  match s.utxoS with
+  | some o => some o
+  | none =>
+    match s.nonWitnessUtxo, s.vout with
+    | some t, some n => t.vout[n]?
+    | _, _ => none
+
 /-- `InputScope.verify(ignore_missing)`: `some (ok?, scope)` or raise -/
 def InScope.verify (sha : Bytes → Bytes) (s : InScope) (ignoreMissing : Bool) : Option (Bool × InScope) :=
   if s.nonWitnessUtxo.isSome || s.txhash.isSome then
-    let txid : Option Bytes := match s.txhash with
-      | some h => some h.reverse
-      | none => s.nonWitnessUtxo.map (Tx.txid sha)
-    if s.txid.isSome && s.txid == txid then
+    if s.txid.isSome && s.txid == s.expectedTxid sha then
       -- an accompanying witness_utxo must not contradict the verified output
-      let prev : Option TxOut := match s.utxoS with
-        | some o => some o
-        | none => match s.nonWitnessUtxo, s.vout with
-          | some t, some n => t.vout[n]?
-          | _, _ => none
-      match s.witnessUtxo, prev with
-      | some w, some p => if w = p then some (true, { s with verified := true }) else none
-      | some _, none => none
-      | none, _ => some (true, { s with verified := true })
+      match s.witnessUtxo with
+      | none => some (true, { s with verified := true })
+      | some w => if s.prevOut = some w then some (true, { s with verified := true }) else none
     else none
   else if ignoreMissing then some (false, s) else none
 
